@@ -137,9 +137,10 @@ def _prim_invert(a, b, si, kind, mi):
             return rt.SKIP
         step = c01_steps.AttrStep(a, names[0], [2, 5, None][mi % 3])
     elif kind == 2:
-        if a != 0 or not doc.attrs:
+        if a != 0 or (not doc.attrs and mi < 3):
             return rt.SKIP
-        step = DocAttrStep(sorted(doc.attrs.keys())[0], [2, "v", None][mi % 3])
+        # declared attribute, or (mi >= 3) a name the document type does not declare: the step applies (changing nothing)
+        step = DocAttrStep(sorted(doc.attrs.keys())[0] if mi < 3 else "undeclared", [2, "v", None][mi % 3])
     else:
         if not C.marks:
             return rt.SKIP
@@ -210,6 +211,7 @@ def obligations(tier, seed):
                                  xs_quick=3 if tier == "quick" else 99, step_quick=4 if tier == "quick" else 3)
     if tier == "quick":
         obs += opcheck.op_obligations(tier, [("list", 3)], QUICK_LIST_KINDS, [], T)
+        obs += opcheck.op_obligations(tier, [("list", 16)], ["lift", "wrap", "join"], [], T)     # list item whose second child can be lifted
     pairs = TWO_QUICK if tier == "quick" else TWO_QUICK + TWO_MORE + [("insert", "split"), ("replace_range", "remove_mark_all"), ("lift", "wrap"),
                                                           ("add_mark", "replace"), ("set_node_markup", "delete")]
     for (sn, i) in ([("list", 0)] if tier == "quick" else [("list", 0), ("strict", 0)]):
